@@ -84,6 +84,9 @@ func runCase(t ev.TB, part string, h History) {
 			t.Fatalf("VERIF-INCONCLUSIVE: deadline miss %q, on re-run %q: %s", first.sig, out2.fail.sig, out2.fail.msg)
 		}
 	}
+	if out.slow > 2*time.Second && os.Getenv("C09_SLOW") != "" {
+		fmt.Printf("C09 slow history (%v):\n  %s\n", out.slow, strings.Join(out.trace, "\n  "))
+	}
 	recordCase(part, h, out, extra)
 	if f := out.fail; f != nil && strings.HasPrefix(f.sig, "harness/") || f != nil && strings.Contains(f.sig, "/harness-") {
 		t.Fatalf("VERIF-INCONCLUSIVE (harness): %s: %s", f.sig, f.msg)
